@@ -445,7 +445,7 @@ def wipe_rule(ck, mod, f, label, pi, li, si, envs, only_over=False):
     stores = [I for I in f.insts if I.op == "store" and I.id in used]
     ck.ob(bool(stores), "R-C04-WIPE", CT, "wipe-stores[%s]" % label, "%d store(s) write the plaintext buffer" % len(stores), "nothing writes the plaintext buffer", where=where0)
     for S in stores:
-        lds = [I for I in f.insts if I.op == "load" and I.ops[0] == S.ops[1] and I.b == S.b]
+        lds = [I for I in f.insts if I.op == "load" and _same_addr(f, I.ops[0], S.ops[1]) and I.b == S.b]
         if len(lds) != 1:
             ck.bad("R-C04-WIPE", CT, "wipe-value#%s[%s]" % (_an(f, S), label), "the store does not combine the bytes already at the same address", where=relpath(S.where))
             continue
@@ -498,6 +498,18 @@ def wipe_rule(ck, mod, f, label, pi, li, si, envs, only_over=False):
                         break
             ck.ob(okm, "R-C04-WIPE", CT, "wipe-mask#%s[%s]" % (_an(f, S), label),
                   "every mask bit used is 1 on accept and 0 for each realisable non-zero accumulated difference (%d values)" % (len(envs) - 1), "mask is wrong: %s" % why, where=relpath(S.where))
+
+
+def _same_addr(f, a, b, depth=0):
+    """the same SSA pointer, or two address computations with pairwise the same operands (`p[i] = p[i] & mask` computes &p[i] twice)"""
+    if tuple(a) == tuple(b):
+        return True
+    A, B = f.inst(tuple(a)), f.inst(tuple(b))
+    if A is None or B is None or depth > 3 or A.op != B.op or A.op not in ("getelementptr", "bitcast", "zext", "sext") or len(A.ops) != len(B.ops):
+        return False
+    if A.op == "getelementptr" and (A.get("srcty"), A.get("off"), A.get("var")) != (B.get("srcty"), B.get("off"), B.get("var")):
+        return False
+    return all((isinstance(x, (list, tuple)) and isinstance(y, (list, tuple)) and _same_addr(f, x, y, depth + 1)) or x == y for x, y in zip(A.ops, B.ops))
 
 
 def _an(f, I):
